@@ -45,3 +45,12 @@ Theorem C04_select_rowid : forall pg op npages S (cb : row -> S -> flow * S) sc 
   end.
 Proof. exact select_rowid_lookup. Qed.
 Print Assumptions C04_select_rowid.
+
+(* end to end (Model/E2E.v): SelectRowid from the bytes of the file alone is C04_select_rowid's operation on
+   the schema record the file itself defines *)
+From SQ Require Import Model.Tokenizer Model.Schema Model.E2E Proofs.E2EP.
+Theorem C04_e2e_select_rowid : forall pg op n S cb table rowid columns (s : S) ms st fl,
+  master pg op n = (fl, ms) -> (forall e, fl <> Fail e) -> db_schema ms table = Ok st ->
+  e_select_rowid pg op n S cb table rowid columns s = h_select_rowid pg op n S cb (schema_of st) table rowid columns s.
+Proof. exact e_select_rowid_is_h. Qed.
+Print Assumptions C04_e2e_select_rowid.
